@@ -148,15 +148,15 @@ theorem step_xinv {c : Cfg} {s s' : St} (hi : Inv s) (hd : DInv c s) (h : XInv s
       · cases o with
         | ok =>
           simp only [Option.some.injEq] at hs; subst hs
-          exact xinv_congr (key { s.subs k with pc := .waiting, calls := (s.subs k).calls ++ rc, replayed := rc.length, regAt := some s.log.length } hend rfl rfl) rfl rfl rfl (fun x => x)
+          exact xinv_congr (key { s.subs k with pc := .waiting, calls := (s.subs k).calls ++ rc, replayed := rc.length, regAt := some s.log.length, storeAt := s.store } hend rfl rfl) rfl rfl rfl (fun x => x)
         | panic =>
           simp only [Option.some.injEq] at hs; subst hs
-          exact xinv_congr (key { s.subs k with pc := .waiting, calls := (s.subs k).calls ++ rc, replayed := rc.length, regAt := some s.log.length } hend rfl rfl) rfl rfl rfl (fun x => x)
+          exact xinv_congr (key { s.subs k with pc := .waiting, calls := (s.subs k).calls ++ rc, replayed := rc.length, regAt := some s.log.length, storeAt := s.store } hend rfl rfl) rfl rfl rfl (fun x => x)
         | err =>
           simp only [Option.some.injEq] at hs; subst hs
           simp only [sendChan, closeChan, setSub, upd_same, hch0]
           simp only [Bool.false_eq_true, if_false, Option.isSome_none, upd_same]
-          have := key { s.subs k with pc := .waiting, calls := (s.subs k).calls ++ rc, replayed := rc.length, ch := ⟨some (.replay k), true⟩ } hend rfl rfl
+          have := key { s.subs k with pc := .waiting, calls := (s.subs k).calls ++ rc, replayed := rc.length, ch := ⟨some (.replay k), true⟩, storeAt := s.store } hend rfl rfl
           refine xinv_congr this rfl rfl ?_ (fun x => x)
           funext j
           by_cases hjk : j = k
@@ -164,7 +164,7 @@ theorem step_xinv {c : Cfg} {s s' : St} (hi : Inv s) (hd : DInv c s) (h : XInv s
           · simp [setSub, upd, hjk]
       · split at hs
         · simp only [Option.some.injEq] at hs; subst hs
-          exact xinv_congr (key { s.subs k with pc := .waiting, calls := (s.subs k).calls ++ rc, replayed := rc.length, regAt := some s.log.length } hend rfl rfl) rfl rfl rfl (fun x => x)
+          exact xinv_congr (key { s.subs k with pc := .waiting, calls := (s.subs k).calls ++ rc, replayed := rc.length, regAt := some s.log.length, storeAt := s.store } hend rfl rfl) rfl rfl rfl (fun x => x)
         · simp at hs
     · simp at hs
   | subClosedEarly k =>
